@@ -108,7 +108,7 @@ STEMS = sorted(["amd64", "arm64", "bar", "baz", "debhelper", "foo", "gcc", "hurd
 assert not any(a != b and b.startswith(a) for a in STEMS for b in STEMS)
 DECO = {"sp": ["", "", "-any", "-dev", ":any", "=1", "[x]", "#1"],
         "cm": ["", "", " (>= 1.0)", " | alt", ":any", " <!nocheck>", "  two  blanks", " #r", " [amd64 i386]"],
-        "odd": ["", "", " Name", " von Something", " J.", " <unfinished"],
+        "odd": ["", "", " Name", " von Something", " J.", " <unfinished", " <m>x", ">="],
         "even": [" <%s@example.org>", "<x@y>", " Name <a@b.c>", ">", "  <%s@debian.org>", " (nick) <n@n>"]}
 BLANKS = [" ", " ", "  ", "\t", " \t", "   "]
 CMT_FORMS = ["# c%d\n", "#c%d\n", "# note %d, with comma\n", "#%d\n", "#  %d  two  words \n", "# é中 %d\n", "# Field: like %d\n"]
@@ -517,6 +517,8 @@ class Exec:
             self.sess = Session(self.cur, conc, idiom)
             if self.names0 is None:
                 self.names0 = list(self.sess.para.keys())
+                if self.sess.dump() != self.cur:
+                    raise ValueError("dump() of the untouched document differs from the input")
             opened, exc = self.sess.open_values()
         except Exception as e:
             self.events.append(dict(op="open", res="EXC:%s" % type(e).__name__, obs=[], doc="ok", msg=str(e)[:200]))
@@ -630,12 +632,6 @@ def run_case(case, conc):
     ex = Exec(conc)
     mism = []
     text = ex.text
-    try:
-        probe = parse(text)
-        if probe.dump() != text:
-            return ex, mism, "dump() of the untouched document differs from the input %r" % text, None
-    except Exception as e:
-        return ex, mism, "parsing %r raised %s: %s" % (text, type(e).__name__, e), None
     if case["fails"] or not case["dom"]:
         # outside UpDomain: reading must not fail, the values are not judged
         ok = ex.open(conc.idiom)
@@ -816,7 +812,7 @@ def gen_layout(rng, mode, nwords, nids):
                 continue
             i = idx.pop()
             if mode == "up":
-                gt = (rng.random() < 0.93) if last else (rng.random() < 0.08)
+                gt = (rng.random() < 0.9) if last else (rng.random() < 0.25)
                 lay[k] = 2 * i if gt else 2 * i - 1
                 if len(piece) == 1 and gt:
                     singles.append(lay[k])
@@ -1079,6 +1075,12 @@ def validate(ctx, traces, with_controls=True, known=None):
     env = {"TRACE_DIAG": "0", "KNOWN_HIDDEN": "1" if K_HIDDEN in known else "0", "KNOWN_TRAIL": "1" if K_TRAIL in known else "0"}
     acc, _, r = core.validate_traces(ctx, "TraceListSort", "TraceListSort.cfg", tl, extra_env=env, controls=controls)
     rejected = [i for i in range(1, len(tl) + 1) if i not in acc]
+    # REJECT lines are notes of the trace module: this (accepted) trace needed an open finding
+    notes = {}
+    for v in r.printed.get("REJECT", []):
+        if isinstance(v, list) and len(v) >= 2 and v[0] in acc and v[0] <= len(tl):
+            notes[v[0]] = K_HIDDEN if v[1] == "known-hidden" else K_TRAIL
+    validate.notes = notes
     info = {}
     if rejected:
         sub = [tl[i - 1] for i in rejected[:20]]
@@ -1087,19 +1089,6 @@ def validate(ctx, traces, with_controls=True, known=None):
         for j, i in enumerate(rejected[:20]):
             info[i] = prog.get(j + 1, 0)
     return rejected, info, made
-
-
-def known_hits_in(traces):
-    """which traces needed an open finding to be explained (decided by the SAME spec: validation without the
-    finding rejects them) -- cheap pre-filter: a ValueError on open / on leaving after a sort"""
-    out = []
-    for n, t in enumerate(traces):
-        ev = t["events"]
-        if ev and ev[0]["op"] == "open" and ev[0]["res"] == "ValueError":
-            out.append((n, K_TRAIL))
-        elif any(e["op"] == "close" and e["res"] == "ValueError" for e in ev) and any(e["op"] == "sort" for e in ev):
-            out.append((n, K_HIDDEN))
-    return out
 
 
 # ------------------------------------------------------------------ (c) the formatter contract
@@ -1196,7 +1185,7 @@ def run(ctx):
 
     def design_run():
         try:
-            w = 4 if quick else 8
+            w = 4
             cfgs = ["MC_ListSortImpl_quick.cfg"] if quick else ["MC_ListSortImpl.cfg", "MC_ListSortImpl_two.cfg", "MC_ListSortImpl_deep.cfg",
                                                                  "MC_ListSortImpl_hidden.cfg", "MC_ListSortImpl_fixed.cfg", "MC_ListSortImpl_fixed_hidden.cfg"]
             design["runs"] = [(c, ctx.tlc_must_hold("ListSortImpl", c, workers=w)) for c in cfgs]
@@ -1228,18 +1217,32 @@ def run(ctx):
         try:
             s = ctx.seed
             if quick:
-                emits = [emit_cfg(["sp", "cm", "up"], 3, 7, 1, False, 1, 2, "some", False, 4, s % 4),       # every layout with >= 2 values: sort / reformat
-                         emit_cfg(["sp", "cm", "up"], 3, 7, 1, True, 2, 2, "some", False, 150, s % 150),   # two calls, with the edit calls
+                emits = [emit_cfg(["sp", "cm", "up"], 3, 7, 1, False, 1, 2, "some", False, 9, s % 9),       # a layout with >= 2 values: sort / reformat
+                         emit_cfg(["sp", "cm", "up"], 3, 7, 1, True, 2, 2, "some", False, 300, s % 300),   # two calls, with the edit calls
                          emit_cfg(["up"], 3, 7, 1, True, 0, 0, "one", False, 2, s % 2)]                    # reading uploaders fields
             else:
-                emits = [emit_cfg(["sp", "cm", "up"], 3, 7, 1, False, 1, 2, "all", True, 2, s % 2),
-                         emit_cfg(["sp", "cm", "up"], 3, 8, 2, False, 1, 2, "some", False, 6, s % 6),
-                         emit_cfg(["sp", "cm", "up"], 3, 7, 1, True, 2, 2, "some", False, 25, s % 25),
-                         emit_cfg(["cm", "up"], 2, 10, 2, False, 1, 2, "one", False, 8, s % 8, dups=False),
-                         emit_cfg(["up"], 3, 8, 1, True, 0, 0, "one", False, 1, 0)]
+                emits = [emit_cfg(["sp", "cm", "up"], 3, 7, 1, False, 1, 2, "all", True, 5, s % 5),
+                         emit_cfg(["sp", "cm", "up"], 3, 8, 2, False, 1, 2, "some", False, 12, s % 12),
+                         emit_cfg(["sp", "cm", "up"], 3, 7, 1, True, 2, 2, "some", False, 60, s % 60),
+                         emit_cfg(["cm", "up"], 2, 10, 2, False, 1, 2, "one", False, 16, s % 16, dups=False),
+                         emit_cfg(["up"], 3, 8, 1, True, 0, 0, "one", False, 3, s % 3)]
+            res = [None] * len(emits)
+
+            def one(k):
+                try:
+                    res[k] = ctx.tlc("ListSortImpl", emits[k], workers=1, want_tags={"CASE"})
+                except BaseException as e:
+                    res[k] = e
+            ths = [threading.Thread(target=one, args=(k,)) for k in range(len(emits))]
+            for k in range(0, len(ths), 3):          # three emission runs at a time
+                for th in ths[k:k + 3]:
+                    th.start()
+                for th in ths[k:k + 3]:
+                    th.join()
             out = []
-            for cfg in emits:
-                r = ctx.tlc("ListSortImpl", cfg, workers=1, want_tags={"CASE"})
+            for r in res:
+                if isinstance(r, BaseException):
+                    raise r
                 if r.violated:
                     raise core.MachineryError("emission run violated %s" % r.violated)
                 out += r.printed.get("CASE", [])
@@ -1266,19 +1269,24 @@ def run(ctx):
 
     try:
         # ---- (b) code -> spec: recorded executions
-        ntr = 260 if quick else 5000
+        import time
+        tm = {"t0": time.time()}
+        ntr = 210 if quick else 1500
         execs = []
         for i in range(ntr):
             mode = ("sp", "cm", "up")[i % 3]
             lay = gen_layout(rng, mode, rng.randint(1, 7), 30)
             execs.append(record_trace(rng, mode, lay, rng.randint(1, 3), 5, stress=(i % 16 == 5), longname=(i % 16 == 9)))
         plan = []
-        for rep in range(1 if quick else 5):
-            for mode in ("sp", "cm", "up"):
+        for rep in range(1 if quick else 3):
+            modes = ("sp", "cm", "up")
+            bigmode = modes[(ctx.seed + rep) % 3]
+            for mode in modes:
                 plan += [(mode, "oneline", rng.choice(COUNTS[:8]), [["sort@text/f"], ["sort@text/r", "reformat"]]),
-                         (mode, "perline", rng.choice(COUNTS[3:12]), [["sort@neg/f"], ["reformat"], ["sort@par/f", "append", "sort@text/f"]]),
-                         (mode, "leadsep", rng.choice(COUNTS[:9]), [["reformat", "sort@text/f"], ["sort@half/r"]]),
-                         (mode, "perline", rng.choice(COUNTS[12:]), [["sort@text/f", "reformat"]])]
+                         (mode, "perline", rng.choice(COUNTS[3:9] if quick else COUNTS[3:12]), [["sort@neg/f"], ["reformat"], ["sort@par/f", "append", "sort@text/f"]]),
+                         (mode, "leadsep", rng.choice(COUNTS[:9]), [["reformat", "sort@text/f"], ["sort@half/r"]])]
+                if mode == bigmode or not quick:
+                    plan += [(mode, "perline", rng.choice(COUNTS[12:]), [["sort@text/f", "reformat"]])]
             plan += [(rng.choice(["cm", "up"]), "hidden", rng.choice([9, 10, 33]), [["sort@text/f", "reformat"], ["sort@text/r"]]),
                      (rng.choice(["cm", "up"]), "hidden", rng.choice([5, 17]), [["sort@text/r"], ["sort@text/f"]])]
         if not quick:
@@ -1287,12 +1295,14 @@ def run(ctx):
             execs.append(record_trace(rng, mode, stress_layout(rng, mode, kind, n), len(forced), 0, stress=True,
                                       longname=rng.random() < 0.5, forced=forced))
         ctx.extra["stress_traces"] = len(plan)
+        tm["recorded"] = time.time()
 
         # ---- (a) spec -> code: cases printed by TLC
         threads[1].join()
         if "error" in design:
             raise design["error"]
         cases = design["cases"]
+        tm["emitted"] = time.time()
         arb = []          # (Exec, case, conc, mismatches)
         per_op = {}
         nrep = 0
@@ -1322,6 +1332,7 @@ def run(ctx):
             if ci in (len(cases) // 3, 2 * len(cases) // 3) and ops:
                 ctx.sample("case %s %r: %s -> list %s, leaving: %s, text %s" % (
                     case["mode"], conc.value_text(), [(o["op"], o["kind"], o["rev"], o["v"]) for o in ops], case["vals"], case["cres"], case["out"]))
+        tm["replayed"] = time.time()
         ctx.extra["cases_emitted"] = len(cases)
         ctx.extra["cases_replayed"] = nrep
         ctx.extra["cases_to_arbiter"] = len(arb)
@@ -1339,13 +1350,8 @@ def run(ctx):
         for i in range(nrec):
             ctx.distinct.add(("trace", i))
         ctx.extra["controls"] = made
-        # open findings: a trace that is only accepted WITH the finding switched on (same spec, flag off)
-        suspects = [(n, fid) for n, fid in known_hits_in(traces) if (n + 1) not in rejected and fid in KNOWN_IDS]
-        if suspects:
-            sub = [traces[n] for n, _ in suspects]
-            rej2, _, _ = validate(ctx, sub, with_controls=False, known=set())
-            for j in rej2:
-                hit(suspects[j - 1][1])
+        for tid, fid in sorted(validate.notes.items()):      # accepted only because of an open finding
+            hit(fid)
         for i in rejected[:5]:
             t = traces[i - 1]
             at = info.get(i, 0)
@@ -1376,6 +1382,7 @@ def run(ctx):
         ctx.extra["trace_max_values"] = max(len(e["obs"]) for t in traces for e in t["events"])
         ctx.extra["trace_sorts"] = sum(1 for t in traces for e in t["events"] if e["op"] == "sort")
 
+        tm["validated"] = time.time()
         # ---- (c) the formatter contract
         threads[2].join()
         if "error" in design:
@@ -1397,6 +1404,8 @@ def run(ctx):
             ctx.case_seen(("fmt", json.dumps(case, sort_keys=True)), True)
             if msg:
                 ctx.violation({"kind": "fmt", "case": case, "name": name, "vals": vals, "cmts": cmts}, msg)
+        tm["fmt"] = time.time()
+        ctx.extra["phase_s"] = {k: round(v - tm["t0"], 1) for k, v in tm.items() if k != "t0"}
         ctx.traces += nf
         ctx.extra["fmt_cases"] = {"streams": len(fcases), "shipped": len(scases),
                                   "by_verdict": {v: sum(1 for c in fcases if c["verdict"] == v) for v in ("accept", "reject", "unspec")}}
